@@ -141,7 +141,8 @@ class Probe(Stream):
 class FnProbe:
     """the library's own ``sink`` node around a plain function (a lambda) that hands back the awaitable of an asynchronous
     writer.  mode "sinkfn": every call returns a Future; "sinkfn_first_none": the first call returns nothing (a batching writer
-    that has nothing to flush yet), later calls return a Future."""
+    that has nothing to flush yet), later calls return a Future; "sinkfn_handle": every call returns an object with __await__ that is
+    neither a coroutine nor a Future."""
 
     def __init__(self, upstream, log, mode="sinkfn", pid=1):
         self.log, self.mode, self.pid, self.n = log, mode, pid, 0
@@ -160,7 +161,19 @@ class FnProbe:
             return None
         fut = Future()
         log.pending[d] = (fut, self.pid)
+        if self.mode == "sinkfn_handle":
+            return Handle(fut)
         return fut
+
+
+class Handle:
+    """an awaitable that is neither a coroutine nor a Future (what a client library hands back for a write in progress)"""
+
+    def __init__(self, fut):
+        self.fut = fut
+
+    def __await__(self):
+        return self.fut.__await__()
 
 
 def make_probe(upstream, log, mode="sync", pid=1):
